@@ -877,6 +877,8 @@ struct Value {
 
     void Merge(Value &&val) {
         if (isUndefined()) {
+            // An undefined value may still hold the bits of what it was moved from.
+            reset();
             setTypeToArray();
         }
 
@@ -900,6 +902,8 @@ struct Value {
 
     void Merge(const Value &val) {
         if (isUndefined()) {
+            // An undefined value may still hold the bits of what it was moved from.
+            reset();
             setTypeToArray();
         }
 
@@ -2186,7 +2190,9 @@ struct Value {
             }
 
             default: {
-                number_.Natural = SizeT64{0};
+                // Clear the whole union, not only the number: callers turn the value into an empty
+                // array/object/string next and rely on every field being zero.
+                Memory::Initialize(&array_);
             }
         }
     }
